@@ -93,6 +93,17 @@ func corr(seed uint64, n int) {
 			}
 		}
 	}
+	// every sample entry name (valid and not) x includePS x SEI for AVC and HEVC
+	for _, nm := range []string{"avc1", "avc3", "avc2", "hvc1", "hev1", "hvc2", ""} {
+		for _, incl := range []bool{true, false} {
+			emit(&id, []*op{{kind: 'A', ts: 90000, mt: "video", lang: "und"},
+				{kind: 'V', k: 0, name: nm, sps: [][]byte{unhex(avcSPSPool[0])}, pps: [][]byte{unhex(avcPPSPool[0])}, incl: incl}})
+			for _, sei := range [][][]byte{nil, {unhex(hevcSEIPool[0])}} {
+				emit(&id, []*op{{kind: 'A', ts: 90000, mt: "video", lang: "und"},
+					{kind: 'H', k: 0, name: nm, vps: [][]byte{unhex(hevcVPSPool[0])}, sps: [][]byte{unhex(hevcSPSPool[0])}, pps: [][]byte{unhex(hevcPPSPool[0])}, sei: sei, incl: incl}})
+			}
+		}
+	}
 	g := &gen{r: hx.NewRng(seed)}
 	for i := 0; i < n; i++ {
 		emit(&id, g.history(true))
@@ -667,16 +678,25 @@ func search(seed uint64, n int) {
 		}
 	}
 	g := &gen{r: hx.NewRng(seed + 1)}
+	// every SPS of the pools x every valid (sample entry name, includePS) combination (x with/without SEI for HEVC)
 	for _, sp := range avcSPSPool {
-		for _, nm := range []string{"avc1", "avc3"} {
+		for _, c := range []struct {
+			nm   string
+			incl bool
+		}{{"avc1", true}, {"avc3", true}, {"avc3", false}} {
 			evalHistory([]*op{{kind: 'A', ts: 90000, mt: "video", lang: "und"},
-				{kind: 'V', k: 0, name: nm, sps: [][]byte{unhex(sp)}, pps: g.nalus(avcPPSPool, true), incl: true}})
+				{kind: 'V', k: 0, name: c.nm, sps: [][]byte{unhex(sp)}, pps: g.nalus(avcPPSPool, true), incl: c.incl}})
 		}
 	}
 	for _, sp := range hevcSPSPool {
-		for _, nm := range []string{"hvc1", "hev1"} {
-			evalHistory([]*op{{kind: 'A', ts: 90000, mt: "video", lang: "und"},
-				{kind: 'H', k: 0, name: nm, vps: g.nalus(hevcVPSPool, true), sps: [][]byte{unhex(sp)}, pps: g.nalus(hevcPPSPool, true), incl: true}})
+		for _, c := range []struct {
+			nm   string
+			incl bool
+		}{{"hvc1", true}, {"hev1", true}, {"hev1", false}} {
+			for _, sei := range [][][]byte{nil, {unhex(hevcSEIPool[0])}, {unhex(hevcSEIPool[1]), unhex(hevcSEIPool[0])}} {
+				evalHistory([]*op{{kind: 'A', ts: 90000, mt: "video", lang: "und"},
+					{kind: 'H', k: 0, name: c.nm, vps: g.nalus(hevcVPSPool, true), sps: [][]byte{unhex(sp)}, pps: g.nalus(hevcPPSPool, true), sei: sei, incl: c.incl}})
+			}
 		}
 	}
 	for i := 0; i < n; i++ {
